@@ -2,6 +2,7 @@
 evidence, derived maps (bounded stand-in; see docs/BOUNDED_GUIDE.md).
 
 All oracles are the formulas of the property statement written with plain numpy over the index set {k | not mask[k]}."""
+import itertools
 import numpy as np
 from pyvc.bounded import bounded
 from pyvc import gens
@@ -450,9 +451,10 @@ def _gen_inv(rng, tier):
                 break
         npix = int((~m).sum())
         # list of linear objects: (n_params, regularized?)
-        layout = [[(2, True)], [(3, True)], [(1, False), (2, True)], [(2, True), (2, False)],
-                  [(2, True), (1, False), (2, True)], [(1, False), (1, False), (3, True)], [(2, True), (3, True)],
-                  [(2, False)], [(1, False), (2, False)]][i % 9]
+        # EVERY pattern of regularized / unregularized objects of length 1..4 (30 patterns: adjacent, separated, leading, trailing
+        # unregularized objects), sizes 1..3
+        pats = [p for L in (1, 2, 3, 4) for p in itertools.product((True, False), repeat=L)]
+        layout = [(rng.randint(1, 3), reg) for reg in pats[i % len(pats)]]
         objs = []
         for (k, reg) in layout:
             objs.append({"mapping": gens.reals(rng, (npix, k), -2.0, 2.0, special=False),
